@@ -27,6 +27,10 @@ ASSUMPTIONS = [
     "last packet + 500 ms] unless a non-truncated packet from the same source releases it earlier",
     "questions with the QU bit from port 5353 are C11's subject: here their multicast answers are allowed at the "
     "release instant and not required",
+    "'saw multicast less than one second before' is judged from a reference cache fed with exactly the datagrams the "
+    "instance accepted (the library's own notion): sightings swallowed by the duplicate guard, sightings of unicast "
+    "copies, cache-flush marks on sibling records and goodbyes move that instant for model and library alike and are "
+    "not told apart (DESIGN section 13, 'not yet decided by a check')",
 ]
 
 EPS = 0.001
